@@ -4,7 +4,8 @@
    (tied to /repo by harness/props/C18*.py on every run). *)
 From PV Require Import Base.Prelude Base.Decimal Wire.Lex Wire.SeqSet Wire.SeqSetProofs
   Wire.Strings Wire.StringsProofs Wire.ModUtf7 Wire.ModUtf7Proofs Wire.CmdLine
-  Wire.CmdLineProofs Wire.Flag Wire.FlagProofs Wire.DateTime Wire.DateTimeProofs.
+  Wire.CmdLineProofs Wire.Flag Wire.FlagProofs Wire.DateTime Wire.DateTimeProofs
+  Wire.DateTimeChars.
 
 (* ===================== 1. one value, four spellings ======================= *)
 
@@ -249,13 +250,11 @@ Proof. exact datetime_roundtrip. Qed.
 Print Assumptions C18_datetime_roundtrip.
 
 (* The PARSED DateTime object serialises as dquote + its cached string value +
-   dquote.  Partial: it parses back to the same value PROVIDED the value holds
-   no dquote or backslash; that the date-time grammar admits neither is not
-   proved here (it is checked on every run by the monitor `datetime_reparse`). *)
-Theorem C18_parsed_datetime_reserialise_partial : forall b d raw rest,
+   dquote; the text of every date-time strptime accepts holds neither a dquote
+   nor a backslash, so that form parses back to the same value, consuming
+   exactly the serialised bytes, after any spaces and whatever follows *)
+Theorem C18_parsed_datetime_reserialise : forall b d raw rest,
   parse_datetime b = Some (d, raw, rest) ->
-  (exists s, raw = DQUOTE :: s ++ [DQUOTE] /\
-     (forallb qsafe s = true ->
-      forall k rest', parse_datetime (repeat SP k ++ raw ++ rest') = Some (d, raw, rest'))).
-Proof. exact parsed_datetime_reserialise_partial. Qed.
-Print Assumptions C18_parsed_datetime_reserialise_partial.
+  forall k rest', parse_datetime (repeat SP k ++ raw ++ rest') = Some (d, raw, rest').
+Proof. exact parsed_datetime_reserialise. Qed.
+Print Assumptions C18_parsed_datetime_reserialise.
